@@ -1,3 +1,4 @@
+mod alloc_watch;
 mod exec;
 mod frames;
 mod logsub;
@@ -9,6 +10,9 @@ mod tape;
 mod world;
 
 use runner::{Options, Prop, Tier};
+
+#[global_allocator]
+static GLOBAL: alloc_watch::Watching = alloc_watch::Watching;
 
 fn prop_by_id(id: &str, thorough: bool) -> Option<Box<dyn Prop>> {
     Some(match id {
